@@ -86,6 +86,12 @@ def run(ctx) -> None:
     from . import lockstep
     lockstep.zip_longest_table(ctx, "R01.11")
     ctx.floor("zip_longest_cells_decided", 100)
+    # "ends the same way": the scopes the tools run their sources in never swallow what the source,
+    # the predicate or the function raised (C06's rule on library __aexit__ methods, shared)
+    from . import c06
+    from .common import Relabel
+    ctx.rule("R01.13", "the library's own context managers around the sources never suppress an exception (R06.3, shared)")
+    c06._aexit_falsy(Relabel(ctx, "R01.13"))
     from . import tooltables
     tooltables.tool_tables(ctx, "R01.12")
     ctx.floor("tool_cells_decided", 120)
